@@ -52,6 +52,9 @@ def canonical(f, v):
         v["_block_descriptors"] = []
         if "longlba" in v:
             v["longlba"] = 0
+    if f.name == "inquiry.standard":
+        v["_total"] = 96
+        v["additional_length"] = 91
     if f.name == "readelementstatus":
         for p in v["element_status_pages"]:
             p["_tail"] = 4
